@@ -1,6 +1,6 @@
 (* Props/C09.v — C09: the chunk codec over a faulty storage (src/extsort/chunk.rs: dump, ExternalChunk::next).
    Only statements, closed by [exact]; proofs live in ChunkProofs.v. *)
-From BedV Require Import Base AlgebraModel ExtSortModel ChunkProofs BufModel BufProofs CutProofs.
+From BedV Require Import Base AlgebraModel ExtSortModel ChunkProofs BufModel BufProofs CutProofs OracleProofs.
 
 (* bincode DefaultOptions on Vec<u8>: deserialize (serialize v) = v *)
 Theorem C09_codec : forall v, N.of_nat (length v) < 2 ^ 64 -> de_blob (ser_blob v) = Some v.
@@ -206,3 +206,21 @@ Proof.
   repeat match goal with |- _ /\ _ => split end; vm_compute; reflexivity.
 Qed.
 Print Assumptions C09_truncated_nonvacuous.
+
+(* ---- consistency of the two ways a chunk case is judged: the outcome oracle accepts what the model itself does ---- *)
+Theorem C09_oracle_accepts_model : forall items wplan rplan st' e,
+  Forall blob_ok items -> dump (mkW [] wplan) items = (st', e) ->
+  chunk_oracle items (match e with None => true | Some _ => false end)
+               (match e with None => chunk_read (w_stored st') rplan | Some _ => [] end)
+               (existsb (fun o => match o with RErr => true | _ => false end) rplan) = true.
+Proof. exact chunk_oracle_accepts_model. Qed.
+Print Assumptions C09_oracle_accepts_model.
+
+(* on storage that lost its tail (counted as a hard fault by the check) the model's outcome is accepted by the oracle,
+   or it is one of the silent ends on a frame boundary / inside a length header that only the exact comparison admits *)
+Theorem C09_oracle_accepts_truncated : forall items n,
+  Forall blob_ok items -> (n <= length (frames items))%nat ->
+  chunk_oracle items true (chunk_read (firstn n (frames items)) []) true = true
+  \/ exists j, (j < length items)%nat /\ chunk_read (firstn n (frames items)) [] = map CItem (firstn j items).
+Proof. exact chunk_oracle_accepts_truncated. Qed.
+Print Assumptions C09_oracle_accepts_truncated.
